@@ -109,6 +109,10 @@ pub struct Recorder {
     cur_input: String,
     cur_file: Option<std::fs::File>,
     want_samples: usize,
+    /// rust_decimal's own range-overflow panics are outside every property's hypothesis only
+    /// where the workload can legitimately leave the decimal range; checks whose generators
+    /// keep every required value inside it switch this off, so such a panic is a violation.
+    pub excuse_decimal_overflow: bool,
 }
 
 impl Recorder {
@@ -125,6 +129,7 @@ impl Recorder {
             cur_input: String::new(),
             cur_file,
             want_samples: 2,
+            excuse_decimal_overflow: true,
         }
     }
 
@@ -322,7 +327,7 @@ pub fn guarded<T, F: FnOnce() -> T>(rec: &mut Recorder, f: F) -> Option<T> {
                 location: "?".into(),
                 frame: "?".into(),
             });
-            if is_decimal_range_overflow(&p.message) {
+            if rec.excuse_decimal_overflow && is_decimal_range_overflow(&p.message) {
                 // an intermediate result left the representable decimal range: outside the
                 // hypothesis of every property ("as long as numbers stay within the range").
                 rec.count("excused:decimal-range-overflow");
